@@ -36,7 +36,11 @@
  *       judged like after a failed call.  Other answers larger than the request
  *       (len+1, len+2^k) are not generated.
  *       For store, store_part and reset a fresh instance then validates the
- *       medium the failed operation left behind (x the 3 image pairs):
+ *       medium the failed operation left behind (x the 5 image pairs of the fault
+ *       cases: the 3 below, and two whose previous image has a zero second half /
+ *       is all zero, so that the checksum over the octets read before a failing
+ *       read equals the checksum on the medium; validate, fetch and fetch_part
+ *       run over the generic, the zero-tail and the all-zero previous image):
  *       validate = success  =>  checksum octets = reference checksum of the data
  *       image on the medium; if the failing call transferred nothing or was a
  *       read (every write that happened is whole)  =>  fetch returns exactly the
@@ -444,8 +448,9 @@ run_op(struct inst *in, int op, void *buf, size_t off, size_t n, int plan, long 
 
 /* ---- images ----------------------------------------------------------------------------------- */
 
-#define NPAIRS 3
-static const char *const PAIRNAME[NPAIRS] = { "generic", "sum-preserving", "crc-preserving" };
+#define NPAIRS 3  /* pairs of the crash cases */
+#define NFPAIRS 5 /* pairs of the fault cases: those, and two whose previous image ends in / consists of zero octets */
+static const char *const PAIRNAME[NFPAIRS] = { "generic", "sum-preserving", "crc-preserving", "zero-tail", "all-zero" };
 
 static void
 make_pair(unsigned char *P, unsigned char *Q, size_t N, int pair)
@@ -455,6 +460,28 @@ make_pair(unsigned char *P, unsigned char *Q, size_t N, int pair)
     static const unsigned char G[3] = { 0x03, 0x40, 0x01 };
     for (size_t i = 0; i < N; ++i)
         P[i] = (unsigned char)(0x21 + 0x1d * i);
+    /* Images whose checksum over a PREFIX of the data equals the checksum over
+     * all of it (round 6): everything behind the first half is zero (additive
+     * sums do not see trailing zeros), resp. every octet is zero (CRC-16/ARC with
+     * initial value 0 and the sums with any initial value give the same value
+     * for every prefix).  "A medium read that fails or transfers short at any
+     * point of ... validate ... is always reported as an I/O error" also when the
+     * octets that could not be read would not have changed the checksum. */
+    if (pair == 3) {
+        const size_t h = (N + 1) / 2;
+        for (size_t i = 0; i < N; ++i) {
+            P[i] = i < h ? P[i] : 0;
+            Q[i] = i < h ? (unsigned char)(0xd6 - 0x2b * i) : 0;
+        }
+        return;
+    }
+    if (pair == 4) {
+        for (size_t i = 0; i < N; ++i) {
+            P[i] = 0;
+            Q[i] = i == 0 ? 0x01 : 0;
+        }
+        return;
+    }
     switch (pair) {
     case 0:
         for (size_t i = 0; i < N; ++i)
@@ -750,7 +777,12 @@ fault_cases(const struct cfg *c, int op, size_t off, size_t len)
     const long icap = (long)(c->N + cs) + 2;      /* >= calls of any operation, octet-wise */
     const size_t scap = c->N > cs ? c->N : cs;    /* >= length of any call */
     const bool stores = (op == OP_STORE || op == OP_STORE_PART || op == OP_RESET);
-    const int npairs = (op == OP_STORE || op == OP_STORE_PART) ? NPAIRS : 1;
+    /* stores: all five pairs; validate / fetch / fetch_part: generic, zero-tail,
+     * all-zero (the previous image is what they read); reset: generic */
+    static const int PAIRS_STORE[NFPAIRS] = { 0, 1, 2, 3, 4 }, PAIRS_READ[3] = { 0, 3, 4 }, PAIRS_ONE[1] = { 0 };
+    const bool reads = (op == OP_VALIDATE || op == OP_FETCH || op == OP_FETCH_PART);
+    const int npairs = (op == OP_STORE || op == OP_STORE_PART) ? NFPAIRS : reads ? 3 : 1;
+    const int *pairs = (op == OP_STORE || op == OP_STORE_PART) ? PAIRS_STORE : reads ? PAIRS_READ : PAIRS_ONE;
     const bool zero_len = (op == OP_STORE_PART || op == OP_FETCH_PART) && len == 0;
     char od[64];
     opdesc(od, sizeof od, op, off, len);
@@ -786,9 +818,10 @@ fault_cases(const struct cfg *c, int op, size_t off, size_t len)
         world_free(&w);
         mc_end(ok, ok ? "dry-op-ok" : outcome);
     }
-    for (int pair = 0; pair < npairs; ++pair)
+    for (int pi = 0; pi < npairs; ++pi)
         for (long i = 0; i < icap; ++i)
             for (size_t sc = 0; sc < scap + NOVER; ++sc) {
+                const int pair = pairs[pi];
                 const int over = sc < scap ? 0 : (int)(sc - scap) + 1;
                 const size_t s = over ? 0 : sc;
                 if (!mc_case(CFGFMT " io %s pair=%s fault-in-call=%ld transfers=%zu%s%s", CFGARG(c), od,
@@ -1416,7 +1449,7 @@ anchors(void)
     MC_ANCHOR(memcmp(X, P, 8) && memcmp(X, Q, 8) && crc16_arc_step(X, 8, 0) == crc16_arc_step(P, 8, 0),
               "crc-preserving pair");
     for (size_t n = 1; n <= NMAX; ++n)
-        for (int pair = 0; pair < NPAIRS; ++pair) {
+        for (int pair = 0; pair < NFPAIRS; ++pair) {
             unsigned char A[NMAX], B[NMAX];
             make_pair(A, B, n, pair);
             MC_ANCHOR(memcmp(A, B, n) != 0, "previous and new image differ");
@@ -1514,12 +1547,12 @@ main(int argc, char **argv)
                     seq_cases(&sc, (mc_thorough() && pi == 0 && N <= 4) ? 3 : 2);
                 }
             }
-    char bound[1600];
+    char bound[2000];
     snprintf(bound, sizeof bound,
              "data sizes 1..%zu x placements %s x {default sum16, CRC-16/ARC, sum32} x auxiliary buffer %s: "
              "every store / store_part(offset,len>=0) x 3 image pairs x every write call x every t in 0..len; "
              "every operation (parts incl. length 0) x every medium call x every short count 0..len-1 (and the "
-             "driver answer (size_t)-1, observed, not judged) (one fault per execution), stores x 3 image pairs with a "
+             "driver answer (size_t)-1, observed, not judged) (one fault per execution), stores x 5 image pairs (the 3, zero-tail, all-zero), validate / fetch / fetch_part x 3 previous images (generic, zero second half, all zero) with a "
              "validate/fetch of the medium the failed operation left, by the same instance and by a fresh one; "
              "S: data sizes 1..%zu x bank placements %s x 3 checksums x auxiliary buffer %s x every sequence "
              "pre;X;post on one instance over a two-bank medium: pre = every sequence of <= 2%s fault-free operations "
